@@ -63,3 +63,10 @@ def _v8(repo, mod):
     b = find_stmt(fn, lambda s: isinstance(s, ast.Expr) and norm(s).startswith("self.checked_lines.update"))
     from sa.selftest.harness import replace_nodes
     return replace_nodes(mod, [(a, norm(b)), (b, norm(a))])
+
+
+@variant("C11", "merge-shifts-the-argument", TR, "C11.laws", "merge shifts the assertion positions of the other trace in place (seed C11-d)")
+def _vl1(repo, mod):
+    fn = repo.func(TR, "ExecutionTrace.merge")
+    s = fn.body[-1]
+    return replace_node(mod, s, "for executed_assertion in other.executed_assertions:\n            executed_assertion.trace_position += shift\n            self.executed_assertions.append(executed_assertion)")
